@@ -202,7 +202,8 @@ def h_strings() -> bool:
             la = trace.parse_trace_data(data, "/fixtures/A")
         with patched(trace, open=lambda p, *a, **k: _F(other)):
             lb = trace.parse_trace_data(data, "/fixtures/B")
-        wantb = {1200345: [" 1:00:00 0123   562 other file text 0000002A"],
+        # (two arguments for one specifier: the raw format is shown)
+        wantb = {1200345: [" 1:00:00 0123   562 other file text %08X"],
                  5500999: [" 1:00:00 0123   562 No trace string found with hash value 5500999"] + dump,
                  3300222: [" 1:00:00 0123   562 No trace string found with hash value 3300222"] + dump}[hv]
         return verdict(lb[7:] == wantb, obs={"first": la[7:], "second": lb[7:]})
